@@ -160,30 +160,56 @@ Proof.
     + rewrite <- Hc, first_some_cons_some. auto.
 Qed.
 
+Lemma Forall2_in_r {A B} (P : A -> B -> Prop) l rs r :
+  Forall2 P l rs -> In r rs -> exists f, In f l /\ P f r.
+Proof.
+  induction 1 as [|f0 r0 fs rs0 H0 _ IH]; [intros []|]. intros [<-|Hr].
+  - exists f0. split; [left; reflexivity | exact H0].
+  - destruct (IH Hr) as (f & Hf & Hp). exists f. split; [right; exact Hf | exact Hp].
+Qed.
+
+Lemma Forall2_in_l {A B} (P : A -> B -> Prop) l rs f :
+  Forall2 P l rs -> In f l -> exists r, In r rs /\ P f r.
+Proof.
+  induction 1 as [|f0 r0 fs rs0 H0 _ IH]; [intros []|]. intros [<-|Hf].
+  - exists r0. split; [left; reflexivity | exact H0].
+  - destruct (IH Hf) as (r & Hr & Hp). exists r. split; [right; exact Hr | exact Hp].
+Qed.
+
 (* ---------- ParseFlags ---------- *)
 Section Main.
   Variable flags : list flagdecl.
   Variable bad : str -> str -> bool.
 
+  Definition visited (calls : list (str * str)) environ prefixes props : list flag_result :=
+    map (visit calls (match prefixes with [] => [[]] | _ => prefixes end)
+               (env_map environ []) props) flags.
+
   Lemma parse_flags_unfold args environ prefixes props calls :
     parse_args flags bad args [] = Ok calls ->
     parse_flags flags bad args environ prefixes props
-    = Ok (map (visit calls (match prefixes with [] => [[]] | _ => prefixes end)
-                     (env_map environ []) props) flags).
+    = finish_visit bad (visited calls environ prefixes props).
   Proof. intros Hc. unfold parse_flags. rewrite Hc. reflexivity. Qed.
 
-  (* general form, any prefix list, any environment block *)
-  Theorem precedence_gen args environ prefixes props calls :
+  Lemma finish_visit_ok rs rs' : finish_visit bad rs = Ok rs' -> rs' = rs.
+  Proof. unfold finish_visit. destruct (existsb (rejected bad) rs); congruence. Qed.
+
+  (* ok or error, nothing else; the error is the one class "a value was rejected" *)
+  Lemma parse_flags_verdict args environ prefixes props calls :
     parse_args flags bad args [] = Ok calls ->
-    exists rs,
-      parse_flags flags bad args environ prefixes props = Ok rs /\
-      Forall2 (fun f r => r_name r = fname f /\
-                          final_raw r = spec_choice_gen calls environ prefixes props (fname f) /\
-                          r_set r = is_some (final_raw r)) flags rs.
+    parse_flags flags bad args environ prefixes props = Ok (visited calls environ prefixes props) \/
+    parse_flags flags bad args environ prefixes props = Err 1.
   Proof.
-    intros Hc.
-    eexists. split; [apply (parse_flags_unfold _ _ _ _ _ Hc)|].
-    generalize flags as l. clear Hc.
+    intros Hc. rewrite (parse_flags_unfold _ _ _ _ _ Hc). unfold finish_visit.
+    destruct (existsb _ _); auto.
+  Qed.
+
+  Lemma visited_choice calls environ prefixes props :
+    Forall2 (fun f r => r_name r = fname f /\
+                        final_raw r = spec_choice_gen calls environ prefixes props (fname f) /\
+                        r_set r = is_some (final_raw r)) flags (visited calls environ prefixes props).
+  Proof.
+    unfold visited. generalize flags as l.
     induction l as [|f fs IH]; cbn [map]; constructor; [|exact IH].
     destruct (visit_choice calls (match prefixes with [] => [[]] | _ => prefixes end)
                            (env_map environ []) props f) as (Hn & Hf & Hs).
@@ -192,19 +218,49 @@ Section Main.
     apply map_ext. intros p. apply env_map_value.
   Qed.
 
+  (* general form, any prefix list, any environment block: whenever ParseFlags succeeds ... *)
+  Theorem precedence_gen args environ prefixes props calls rs :
+    parse_args flags bad args [] = Ok calls ->
+    parse_flags flags bad args environ prefixes props = Ok rs ->
+    Forall2 (fun f r => r_name r = fname f /\
+                        final_raw r = spec_choice_gen calls environ prefixes props (fname f) /\
+                        r_set r = is_some (final_raw r)) flags rs.
+  Proof.
+    intros Hc Hp. rewrite (parse_flags_unfold _ _ _ _ _ Hc) in Hp.
+    apply finish_visit_ok in Hp. subst rs. apply visited_choice.
+  Qed.
+
+  (* ... and it succeeds when no chosen value is rejected by its option's type *)
+  Theorem parse_flags_accepts args environ prefixes props calls :
+    parse_args flags bad args [] = Ok calls ->
+    (forall f v, In f flags ->
+                 spec_choice_gen calls environ prefixes props (fname f) = Some v ->
+                 bad (fname f) v = false) ->
+    exists rs, parse_flags flags bad args environ prefixes props = Ok rs.
+  Proof.
+    intros Hc Hgood. rewrite (parse_flags_unfold _ _ _ _ _ Hc). unfold finish_visit.
+    destruct (existsb (rejected bad) (visited calls environ prefixes props)) eqn:E; [|eauto].
+    exfalso. apply existsb_exists in E as (r & Hr & Hrej).
+    pose proof (visited_choice calls environ prefixes props) as Hall.
+    destruct (Forall2_in_r _ _ _ _ Hall Hr) as (f & Hf & Hn & Hfr & _).
+    unfold rejected in Hrej. unfold final_raw in Hfr.
+    destruct (r_src r); try discriminate;
+      (destruct (rev (r_calls r)) as [|v vs]; [discriminate|];
+       rewrite Hn in Hrej; rewrite (Hgood f v Hf (eq_sym Hfr)) in Hrej; discriminate).
+  Qed.
+
   Lemma spec_choice_fabio calls environ props name :
     spec_choice_gen calls environ fabio_prefixes props name = spec_choice calls environ props name.
   Proof. reflexivity. Qed.
 
   (* the five sources of config.Load *)
-  Theorem precedence args environ props calls :
+  Theorem precedence args environ props calls rs :
     parse_args flags bad args [] = Ok calls ->
-    exists rs,
-      parse_flags flags bad args environ fabio_prefixes props = Ok rs /\
-      Forall2 (fun f r => r_name r = fname f /\
-                          final_raw r = spec_choice calls environ props (fname f) /\
-                          r_set r = is_some (final_raw r)) flags rs.
-  Proof. intros Hc. exact (precedence_gen args environ fabio_prefixes props calls Hc). Qed.
+    parse_flags flags bad args environ fabio_prefixes props = Ok rs ->
+    Forall2 (fun f r => r_name r = fname f /\
+                        final_raw r = spec_choice calls environ props (fname f) /\
+                        r_set r = is_some (final_raw r)) flags rs.
+  Proof. intros Hc Hp. exact (precedence_gen args environ fabio_prefixes props calls rs Hc Hp). Qed.
 
   (* letter case of environment names does not matter *)
   Definition same_up_to_case (e e' : str) : Prop :=
@@ -269,7 +325,8 @@ Section Main.
   Proof.
     unfold parse_flags.
     destruct (parse_args flags bad args []) as [calls|k|] eqn:Hc; cbn [bind]; try discriminate.
-    exfalso. exact (parse_args_not_panic _ _ _ (le_n _) Hc).
+    - unfold finish_visit. destruct (existsb _ _); discriminate.
+    - exfalso. exact (parse_args_not_panic _ _ _ (le_n _) Hc).
   Qed.
 
   (* entries without '=' are as good as absent *)
@@ -279,7 +336,7 @@ Section Main.
         (filter (fun e => match snd (cut_eq e) with Some _ => true | None => false end) environ)
         prefixes props.
   Proof.
-    unfold parse_flags. f_equal.
+    unfold parse_flags.
     assert (H : forall m0, env_map environ m0 =
               env_map (filter (fun e => match snd (cut_eq e) with Some _ => true | None => false end) environ) m0).
     { induction environ as [|e r IH]; intros m0; cbn [env_map filter]; [reflexivity|].
@@ -325,26 +382,98 @@ Qed.
 
 (* whichever single source supplies the raw value v, the flag's Value.Set receives v last
    and the flag counts as set *)
-Theorem source_equivalence flags bad args environ props calls k v f :
+Theorem source_equivalence flags bad args environ props calls rs k v f :
   parse_args flags bad args [] = Ok calls ->
+  parse_flags flags bad args environ fabio_prefixes props = Ok rs ->
   In f flags -> In k [1; 2; 3; 4] ->
   only_source calls environ props (fname f) k v ->
-  exists rs r,
-    parse_flags flags bad args environ fabio_prefixes props = Ok rs /\ In r rs /\
-    r_name r = fname f /\ final_raw r = Some v /\ r_set r = true.
+  exists r, In r rs /\ r_name r = fname f /\ final_raw r = Some v /\ r_set r = true.
 Proof.
-  intros Hc Hf Hk Ho.
-  destruct (precedence flags bad args environ props calls Hc) as (rs & Hp & Hall).
-  exists rs.
-  assert (exists r, In r rs /\ r_name r = fname f /\
-                    final_raw r = spec_choice calls environ props (fname f) /\
-                    r_set r = is_some (final_raw r)) as (r & Hr & Hn & Hfr & Hs).
-  { clear Hp Hc. induction Hall as [|f0 r0 fs rs0 H0 _ IH]; [contradiction|].
-    destruct Hf as [->|Hf].
-    - exists r0. split; [left; reflexivity | exact H0].
-    - destruct (IH Hf) as (r & Hr & Hrest). exists r. split; [right; exact Hr | exact Hrest]. }
+  intros Hc Hp Hf Hk Ho.
+  pose proof (precedence flags bad args environ props calls rs Hc Hp) as Hall.
+  destruct (Forall2_in_l _ _ _ _ Hall Hf) as (r & Hr & Hn & Hfr & Hs).
   exists r. rewrite (only_source_choice _ _ _ _ _ _ Hk Ho) in Hfr.
   repeat split; auto. rewrite Hs, Hfr. reflexivity.
+Qed.
+
+(* ---------- the same verdict from every source, for every raw value ----------
+   One registered option, one raw value v (well-formed for the option's type or not), given by
+   one source alone.  The command line ("-name=v") is accepted iff the type accepts v; so is the
+   FABIO_ variable, the plain variable and the properties file. *)
+Lemma cut_eq_app n v : ~ In 61 n -> cut_eq (n ++ 61 :: v) = (n, Some v).
+Proof.
+  induction n as [|c n IH]; intros H; cbn [app cut_eq].
+  - reflexivity.
+  - destruct (c =? 61) eqn:E; [apply N.eqb_eq in E; subst; exfalso; apply H; left; reflexivity|].
+    rewrite IH; [reflexivity|]. intros Hin. apply H. right. exact Hin.
+Qed.
+
+Definition plain_name (name : str) : Prop :=
+  match name with
+  | [] => False
+  | c :: r => c <> 45 /\ c <> 61 /\ ~ In 61 r
+  end.
+
+Lemma cmdline_verdict bad name isbool v :
+  plain_name name ->
+  parse_args [{| fname := name; fbool := isbool |}] bad [45 :: name ++ 61 :: v] []
+  = if bad name v then Err 1 else Ok [(name, v)].
+Proof.
+  destruct name as [|c r]; [intros []|]. intros (H45 & H61 & Hr).
+  cbn [parse_args app]. cbn [N.eqb Pos.eqb negb].
+  apply N.eqb_neq in H45, H61. rewrite H45. cbn [andb]. rewrite H45, H61. cbn [orb].
+  unfold split_flag_value. rewrite (cut_eq_app r v Hr).
+  unfold lookup_flag. cbn [find fname]. rewrite beq_refl. cbn [fbool].
+  destruct isbool; destruct (bad (c :: r) v); reflexivity.
+Qed.
+
+Lemma visited_fabio flags calls environ props :
+  visited flags calls environ fabio_prefixes props
+  = map (visit calls fabio_prefixes (env_map environ []) props) flags.
+Proof. reflexivity. Qed.
+
+Lemma other_source_verdict bad f environ props k v :
+  In k [2; 3; 4] -> only_source [] environ props (fname f) k v ->
+  parse_flags [f] bad [] environ fabio_prefixes props
+  = if bad (fname f) v then Err 1
+    else Ok (visited [f] [] environ fabio_prefixes props).
+Proof.
+  intros Hk Ho. assert (Hk' : In k [1; 2; 3; 4]) by (cbn in *; tauto).
+  rewrite (parse_flags_unfold [f] bad [] environ fabio_prefixes props [] eq_refl).
+  rewrite visited_fabio. unfold finish_visit.
+  cbn [map existsb]. rewrite orb_false_r.
+  destruct (visit_choice [] fabio_prefixes (env_map environ []) props f) as (Hn & Hf & _).
+  assert (Hfr : final_raw (visit [] fabio_prefixes (env_map environ []) props f) = Some v).
+  { pose proof (visited_choice [f] [] environ fabio_prefixes props) as Hall.
+    rewrite visited_fabio in Hall.
+    cbn [map] in Hall. inversion Hall as [|? ? ? ? (_ & Hx & _) _]; subst.
+    rewrite Hx. rewrite spec_choice_fabio. apply (only_source_choice _ _ _ _ _ _ Hk' Ho). }
+  unfold rejected. rewrite Hn.
+  assert (Hsrc : r_src (visit [] fabio_prefixes (env_map environ []) props f) <> SrcCmdline).
+  { unfold visit. cbn [calls_for filter map].
+    destruct (env_lookup _ _ _ _) as [[i x]|]; [discriminate|].
+    destruct props as [p|]; [destruct (map_get p (fname f))|]; discriminate. }
+  unfold final_raw in Hfr.
+  destruct (r_src _); try contradiction;
+    (destruct (rev (r_calls _)) as [|x xs]; [discriminate|]; inversion Hfr; subst;
+     destruct (bad (fname f) v); reflexivity).
+Qed.
+
+Theorem same_verdict_every_source bad name isbool v environ props k :
+  plain_name name ->
+  In k [2; 3; 4] ->
+  only_source [] environ props name k v ->
+  let f := {| fname := name; fbool := isbool |} in
+  is_ok (parse_flags [f] bad [45 :: name ++ 61 :: v] [] fabio_prefixes None) = negb (bad name v) /\
+  is_ok (parse_flags [f] bad [] environ fabio_prefixes props) = negb (bad name v).
+Proof.
+  intros Hn Hk Ho f. subst f. split.
+  - unfold parse_flags. rewrite (cmdline_verdict bad name isbool v Hn).
+    destruct (bad name v) eqn:E; [reflexivity|]. cbn [bind].
+    unfold finish_visit. cbn [map existsb]. unfold visit. cbn [fname calls_for filter fst map snd].
+    rewrite beq_refl. cbn [map snd rejected r_src orb]. reflexivity.
+  - rewrite (other_source_verdict bad {| fname := name; fbool := isbool |} environ props k v Hk Ho). cbn [fname].
+    destruct (bad name v); reflexivity.
 Qed.
 
 (* ---------- several Loads in one process ---------- *)
@@ -415,8 +544,9 @@ Example env_case_nonvacuous :
   Forall2 same_up_to_case [bs "fabio_proxy_ADDR=:1"; bs "x=y"] [bs "FABIO_PROXY_addr=:1"; bs "X=y"].
 Proof. repeat constructor. Qed.
 
-(* ---------- an ill-formed typed value: the verdict depends on the source (finding F-C15-3) ----------
-   flagset.go:134 and :145 call f.Set(fl.Name, val) and drop the error, while flag.Parse fails on
+(* ---------- before fix 12b472e (finding F-C15-3, repaired in /repo): an ill-formed typed value got a
+   source-dependent verdict ----------
+   flagset.go:134 and :145 called f.Set(fl.Name, val) and dropped the error, while flag.Parse fails on
    the same raw value: from the command line the value is rejected, from the environment or
    the file Value.Set is called, fails, the option holds whatever the failed Set left (the zero
    value for the stdlib flag types) and is counted as set. *)
@@ -424,10 +554,10 @@ Definition maxconn_flags : list flagdecl := [{| fname := bs "proxy.maxconn"; fbo
 Definition abc_is_bad (_ raw : str) : bool := beq raw (bs "abc").
 
 Lemma illformed_value_source_dependent :
-  parse_flags maxconn_flags abc_is_bad [bs "-proxy.maxconn=abc"] [] fabio_prefixes None = Err 1 /\
-  parse_flags maxconn_flags abc_is_bad [] [bs "FABIO_PROXY_MAXCONN=abc"] fabio_prefixes None
+  parse_flags_set_error_dropped maxconn_flags abc_is_bad [bs "-proxy.maxconn=abc"] [] fabio_prefixes None = Err 1 /\
+  parse_flags_set_error_dropped maxconn_flags abc_is_bad [] [bs "FABIO_PROXY_MAXCONN=abc"] fabio_prefixes None
   = Ok [{| r_name := bs "proxy.maxconn"; r_set := true; r_calls := [bs "abc"]; r_src := SrcEnv 0 |}] /\
-  parse_flags maxconn_flags abc_is_bad [] [] fabio_prefixes (Some [(bs "proxy.maxconn", bs "abc")])
+  parse_flags_set_error_dropped maxconn_flags abc_is_bad [] [] fabio_prefixes (Some [(bs "proxy.maxconn", bs "abc")])
   = Ok [{| r_name := bs "proxy.maxconn"; r_set := true; r_calls := [bs "abc"]; r_src := SrcProps |}].
 Proof. vm_compute. repeat split. Qed.
 
@@ -454,4 +584,16 @@ Proof.
     + destruct val as [v|].
       * rewrite Hb. apply IH; auto; lia.
       * destruct rest as [|v rest']; [reflexivity|]. rewrite Hb. apply IH; auto. cbn [length] in Hl. lia.
+Qed.
+
+Example same_verdict_nonvacuous :
+  plain_name (bs "proxy.maxconn") /\
+  only_source [] [bs "Fabio_Proxy_MaxConn=abc"] None (bs "proxy.maxconn") 2 (bs "abc") /\
+  only_source [] [bs "proxy_maxconn=abc"] None (bs "proxy.maxconn") 3 (bs "abc") /\
+  only_source [] [] (Some [(bs "proxy.maxconn", bs "abc")]) (bs "proxy.maxconn") 4 (bs "abc") /\
+  parse_flags maxconn_flags abc_is_bad [] [bs "FABIO_PROXY_MAXCONN=abc"] fabio_prefixes None = Err 1 /\
+  parse_flags maxconn_flags abc_is_bad [bs "-proxy.maxconn=abc"] [] fabio_prefixes None = Err 1.
+Proof.
+  split; [vm_compute; repeat split; discriminate || (intros H; repeat (destruct H as [H|H]; try discriminate); exact H)|].
+  repeat split; try (intros j Hj; cbn in Hj; destruct Hj as [<-|[<-|[<-|[<-|[]]]]]; vm_compute; reflexivity).
 Qed.
